@@ -15,10 +15,12 @@ import (
 	"github.com/anishathalye/porcupine"
 	"github.com/hashicorp/hcl/v2"
 	"github.com/hashicorp/hcl/v2/ext/dynblock"
+	"github.com/hashicorp/hcl/v2/ext/userfunc"
 	"github.com/hashicorp/hcl/v2/hcldec"
 	"github.com/hashicorp/hcl/v2/hclsyntax"
 	hcljson "github.com/hashicorp/hcl/v2/json"
 	"github.com/zclconf/go-cty/cty"
+	"github.com/zclconf/go-cty/cty/function"
 
 	"verifharness/core"
 	"verifharness/gen"
@@ -267,6 +269,52 @@ var c17Directed = []string{
 	"mp[*]", "st[*]", "deep[*].nosuch", "[for i, d in deep: \"${i}-${join(\",\", d.tags[*])}\"]", "f ? deep[*].id : lst[*]",
 	"coalesce(deep[*].sub.name...)", "tup(deep[*].id...)", "{ a = deep[*].id, b = { c = deep[*].tags[*] } }",
 	"[for t in deep[*].tags: t[*]][*]", "deep[*].sub[*].name[*]",
+	// functions defined in configuration (ext/userfunc), published in the shared parent
+	"uf_tag(s, deep[*].sub.name)", "uf_ids(deep)", "uf_wrap(n, deep[*].id...)", "[for d in deep: uf_tag(d.sub.name, d.tags)]",
+	"uf_tag(s, uf_ids(deep))", "{ a = uf_ids(deep), b = uf_tag(\"${n}\", lst[*]) }", "uf_names(deep)",
+}
+
+const c17UserFuncSrc = `
+function "uf_tag" {
+  params = [tag, items]
+  result = [for it in items : "${tag}:${tag}-${it}"]
+}
+function "uf_ids" {
+  params = [items]
+  result = items[*].id
+}
+function "uf_names" {
+  params = [items]
+  result = join(",", [for n in items[*].sub.name : upper(n)])
+}
+function "uf_wrap" {
+  params         = [x]
+  variadic_param = rest
+  result         = [x, rest[*], [for r in rest : [r][*]]]
+}
+`
+
+// c17Funcs decodes the user functions afresh (their bodies are parsed syntax
+// shared by every caller) and publishes them next to the built-in ones.
+func c17Funcs() map[string]function.Function {
+	f, d := hclsyntax.ParseConfig([]byte(c17UserFuncSrc), "funcs.hcl", hcl.InitialPos)
+	if d.HasErrors() {
+		panic(d.Error())
+	}
+	ufs, _, d := userfunc.DecodeUserFunctions(f.Body, "function", func() *hcl.EvalContext {
+		return &hcl.EvalContext{Functions: stdCtyFuncs}
+	})
+	if d.HasErrors() {
+		panic(d.Error())
+	}
+	out := map[string]function.Function{}
+	for n, fn := range stdCtyFuncs {
+		out[n] = fn
+	}
+	for n, fn := range ufs {
+		out[n] = fn
+	}
+	return out
 }
 
 func c17Program(c *core.Case) (*c17Prog, *gen.Scope) {
@@ -629,7 +677,7 @@ func c17Case(c *core.Case) {
 	c.Count(fmt.Sprintf("goroutines:%d", G))
 
 	// shared parent: functions and the variables that are not varied
-	parent := &hcl.EvalContext{Functions: stdCtyFuncs, Variables: map[string]cty.Value{}}
+	parent := &hcl.EvalContext{Functions: c17Funcs(), Variables: map[string]cty.Value{}}
 	shared := map[string]bool{}
 	for _, n := range sc.Names {
 		if gen.Chance(r, 0.25) {
